@@ -45,6 +45,15 @@ CHECKS = {
  'C46': (['asan'], 'event-log monitor vs brute-force Hilbert basis (enumeration inside the Pottier bound) + structural checks (solution, minimal, no duplicates)',
          'All small integer matrices in the stated shapes/ranges (complete in thorough) and random larger ones; the returned set must equal the brute-force set of minimal non-negative solutions.',
          'Cases whose Pottier box exceeds the enumeration cap get the structural checks only (counted in evidence).', 'DESIGN.md 3/C46'),
+ 'C09': (['asan'], 'event-log monitor: value by mpmath at generic points + independent structural walk (no product/positive power of a sum) + idempotence via eq + exact monomial dictionaries over Gaussian rationals (schoolbook) incl. identity decision on planted equal/unequal pairs',
+         'Random nested sums/products/integer powers with opaque atoms are expanded by the real library; four independent clauses are judged per case.',
+         'Polynomial clause limited to inputs that are polynomials with exact coefficients; value clause at generic complex points.', 'DESIGN.md 3/C09'),
+ 'C10': (['asan'], 'event-log monitor: diff result evaluated by mpmath vs 60-digit numerical derivative of the library input tree (two step sizes, conditioning and noise guards), exact-zero clause, cache on/off eq, mixed partials by value; function symbols interpreted by fixed analytic functions',
+         'Random compositions over every function with a differentiation rule, undefined functions and Derivative nodes; each derivative is checked numerically at random complex (or real, for non-analytic functions) points.',
+         'Numerical differentiation is trusted only when self-consistent at two step sizes and two precisions; otherwise the case is inconclusive.', 'DESIGN.md 3/C10'),
+ 'C11': (['asan'], 'event-log monitor: result of subs/xreplace/msubs/ssubs evaluated by mpmath vs the library input tree with keys replaced by the monitor; no-op and identity maps must be eq; cache on/off must be eq',
+         'Random expressions x maps (numbers, swaps, chains, expressions, sub-expression keys with the sound fresh-symbol clause) through all four substitution entry points with both cache settings.',
+         'Sub-expression keys are judged by the sound clause only (whether an occurrence is replaced is the library choice).', 'DESIGN.md 3/C11'),
 }
 
 def main():
